@@ -28,7 +28,7 @@ m = dict(
     hooks=dict(
         guard="verif",
         enable="checks copy /repo's working tree to a scratch directory, add build-tagged in-package *_test.go overlay files from /verif/overlay and build with `go test -c -tags verif`; /repo itself carries no hook code",
-        baseline_off_cmd="cd /repo && GOFLAGS=-mod=mod GOPROXY=off GOSUMDB=off GOTOOLCHAIN=local go test -json -vet=off -count=1 -timeout 25m ./...",
+        baseline_off_cmd="cd /repo && GOPROXY=off GOSUMDB=off GOTOOLCHAIN=local go test -json -vet=off -count=1 -timeout 25m ./...",
         source_commits=[],
         add_only=True,
     ),
